@@ -57,7 +57,7 @@ func TestC23(t *testing.T) {
 	r.Assume("driven through cross_chain_manager.ImportOuterTransfer (entrance.go), destination chain registered, fresh cross-chain id per case; replay protection belongs to C20 and is only recorded here")
 	r.Assume("go-ethereum v1.9.15 trie/rlp/crypto are trusted as the producer of honest Merkle-Patricia data")
 
-	trials := r.N(3, 120)
+	trials := r.N(3, 80)
 	covered := []string{}
 	for _, name := range []string{"eth", "bsc", "heco", "hsc", "pixie", "bytom", "msc"} {
 		var e *es.Env
